@@ -40,8 +40,17 @@ const (
 	ModePerAction        // ok or permanent error, one boolean per action shared by every invocation and run
 )
 
-type Req struct{ N int }
-type Resp struct{ N int }
+// Req and Resp are the model plugin's request and response types: a scalar plus inner references (slice, pointer),
+// so that copies can be checked for shared memory.
+type Req struct {
+	N     int
+	Items []int
+	Ptr   *int
+}
+type Resp struct {
+	N     int
+	Items []int
+}
 type WrongResp struct{ S string }
 
 // Call is one plugin invocation as seen by the monitor.
@@ -614,3 +623,14 @@ func (v *Vault) SeedImage(p *workflow.Plan, img map[uuid.UUID]*Image) {
 
 // ApplyImage overwrites the engine-owned fields of p (a private copy) with img, as a vault Read would return them.
 func (v *Vault) ApplyImage(p *workflow.Plan) { v.applyImage(p) }
+
+// StatusAt returns the durable status of one object after the first c writes of the log (ite chain, no forking).
+func (v *Vault) StatusAt(id uuid.UUID, c int, init workflow.Status) workflow.Status {
+	st := int(init)
+	for i, w := range v.Log {
+		if w.ID == id {
+			st = api.IteInt(i < c, int(w.Img.Status), st)
+		}
+	}
+	return workflow.Status(st)
+}
